@@ -195,6 +195,7 @@ structure St where
   -- ghost history
   exprs : List Expr := []
   cbs : List Cb := []
+  hs : List (Name × Nat) := []    -- ghost: the handler table as the registration history defines it
 
 def St.init : St := {}
 
@@ -343,7 +344,7 @@ def step (s : St) : Op → St × Out
     let (fib1, n) := matchAlways none s.fib p
     match getVal none fib1 n with
     | some _ => ({ s with fib := fib1 }, .dup)
-    | none => ({ s with fib := setVal fib1 n (some hid) }, .ok)
+    | none => ({ s with fib := setVal fib1 n (some hid), hs := s.hs ++ [(p, hid)] }, .ok)
   | .detach p =>
     -- engine.go DetachHandler
     match exactMatch s.fib p with
@@ -353,7 +354,7 @@ def step (s : St) : Op → St × Out
       | none => (s, .err)
       | some _ =>
         let fib1 := setVal s.fib n none
-        ({ s with fib := prune isNoneH fib1 n }, .ok)
+        ({ s with fib := prune isNoneH fib1 n, hs := s.hs.filter fun e => !decide (e.1 = p) }, .ok)
   | .interest name life =>
     -- engine.go onInterest
     let deadline := s.now + life.getD defaultLife
